@@ -56,9 +56,10 @@ class Gen(cv.Gen):
     """cratesv2's history generator with REAL tracks: create_track / update / setters / remove_track on full
     snapshots, interleaved with the crate and membership calls (handles of removed things stay in use)."""
 
-    def __init__(self, rng, tier, hid, foreign=False, **kw):
+    def __init__(self, rng, tier, hid, foreign=False, prepare=False, **kw):
         super().__init__(rng, **kw)
         self.foreign = foreign
+        self.prepare = prepare
         self.tier = tier
         self.uniq = hid * 1000
         self.fresh = 0
@@ -114,6 +115,10 @@ class Gen(cv.Gen):
         v = self.anyt()
         k = r.random()
         self.uniq += 1
+        if self.prepare and r.random() < 0.12:
+            # Engine puts a track on its prepare list (a PreparelistEntity row; not a call of the library)
+            self.ops.append("lib2.plantprep %s" % v)
+            return
         if k < 0.30:
             self.ops.append("update %s %s" % (v, small_snapshot(r, self.tier, self.uniq, self.path(0.35))))
         elif k < 0.55:
@@ -163,8 +168,8 @@ class Gen(cv.Gen):
         return r.choice(cv.NAMES_VALID[:4] if r.random() < 0.7 else cv.NAMES_VALID)
 
 
-def gen_history(rng, tier, hid, nops, foreign=False):
-    g = Gen(rng, tier, hid, foreign=foreign, max_crates=7, max_tracks=8)
+def gen_history(rng, tier, hid, nops, foreign=False, prepare=False):
+    g = Gen(rng, tier, hid, foreign=foreign, prepare=prepare, max_crates=7, max_tracks=8)
     # every handle variable is bound by a creation that cannot fail (fresh path, valid name)
     for _ in range(rng.randrange(2, 4)):
         g.mktrack(fresh_only=True)
@@ -252,7 +257,7 @@ def spec_feed(lines, hout):
                 sp.append("v2.mktrack %s x => %s" % (t[1], h))
                 idx.append(i)
             continue
-        if c in ("update", "set", "snap", "get", "lib2.raw", "lib2.rows", "lib2.pragma", "gettrack", "fault", "fault.status"):
+        if c in ("update", "set", "snap", "get", "lib2.raw", "lib2.rows", "lib2.pragma", "lib2.plantprep", "gettrack", "fault", "fault.status"):
             continue
         sp.append("%s => %s" % (l, h))
         idx.append(i)
@@ -326,7 +331,7 @@ def obs_contents(obs):
 
 
 MUTATORS = ("mktrack", "update", "set", "rmtrack", "mkroot", "mkroot_after", "mksub", "mksub_after", "rename",
-            "setparent", "rmcrate", "addtrack", "addtrackid", "rmtrackfrom", "cleartracks", "addforeign")
+            "setparent", "rmcrate", "addtrack", "addtrackid", "rmtrackfrom", "cleartracks", "addforeign", "lib2.plantprep")
 
 
 def judge(results, part, want=("inv", "fk", "spec", "live", "failed", "blobs", "pragma", "stale")):
@@ -453,7 +458,7 @@ def shrink(v, part, want):
     if len(body) < 4 or NOCOMPARE in body:
         return v
     create, schema, storage = body[1].split()[0], body[1].split()[1], body[1].split()[2]
-    ops = [l for l in body[2:] if not l.startswith(("v2.obs", "lib2."))]
+    ops = [l for l in body[2:] if not l.startswith(("v2.obs", "lib2.raw", "lib2.rows", "lib2.pragma"))]
 
     def bad(cand):
         res = run_all([wrap(schema, cand, storage, create=create)])
